@@ -302,11 +302,15 @@ impl Request {
         match content_length {
             0 => (),
             PAYLOAD_LIMIT.. => return Err((|| Response::PayloadTooLarge())()),
-            _ => self.payload = Some(Request::read_payload(
+            _ => match Request::read_payload(
                 stream,
                 r.remaining(),
                 content_length,
-            ).await)
+            ).await {
+                Ok(payload) => self.payload = Some(payload),
+                /* the peer has gone before sending what it announced */
+                Err(_) => return Ok(None),
+            }
         }
 
         Ok(Some(()))
@@ -318,16 +322,16 @@ impl Request {
         stream:        &mut (impl AsyncRead + Unpin),
         remaining_buf: &[u8],
         size:          usize,
-    ) -> CowSlice {
+    ) -> std::io::Result<CowSlice> {
         let remaining_buf_len = remaining_buf.len();
 
         if size <= remaining_buf_len {
             #[cfg(feature="DEBUG")] println!("\n[read_payload] case: starts_at + size <= BUF_SIZE\n");
 
             #[allow(unused_unsafe/* I don't know why but rustc sometimes put warnings to this unsafe as unnecessary */)]
-            CowSlice::Ref(unsafe {
+            Ok(CowSlice::Ref(unsafe {
                 Slice::new_unchecked(remaining_buf.as_ptr(), size)
-            })
+            }))
 
         } else {
             #[cfg(feature="DEBUG")] println!("\n[read_payload] case: else\n");
@@ -336,9 +340,9 @@ impl Request {
             unsafe {// SAFETY: Here size > remaining_buf_len
                 bytes.get_unchecked_mut(..remaining_buf_len).copy_from_slice(remaining_buf);
                 #[cfg(ohkami_verif)] crate::__verif::emit("read-exact-start", size - remaining_buf_len, 1);
-                stream.read_exact(bytes.get_unchecked_mut(remaining_buf_len..)).await.unwrap();
+                stream.read_exact(bytes.get_unchecked_mut(remaining_buf_len..)).await?;
             }
-            CowSlice::Own(bytes)
+            Ok(CowSlice::Own(bytes))
         }
     }
 
